@@ -95,8 +95,12 @@ struct String {
     }
 
     String &operator=(const Char_T *str) {
-        deallocate();
+        // str may point into this string (s = s.First() + 2): the old storage goes after the copy.
+        Char_T *old_storage = Storage();
+
         copyString(str, StringUtils::Count(str));
+        Memory::Deallocate(old_storage);
+
         return *this;
     }
 
